@@ -276,13 +276,21 @@ fn judge_after_failed_direct(f: &Fault, n: u32, ctx: &mut Ctx) {
         let r = guard(|| {
             let run = |pre: Option<&str>| {
                 let mut s = Session::new();
+                let numbered = pre.map(|p| p.starts_with("20 ")).unwrap_or(false);
+                if numbered {
+                    // the other lines first, then the earlier version of line 20 and a command that compiles,
+                    // then nothing but the new version of line 20
+                    for l in typed.iter().filter(|l| !l.starts_with("20 ")) {
+                        s.enter(l);
+                    }
+                }
                 if let Some(p) = pre {
                     for part in p.split('|') {
                         s.enter(part);
                     }
                     s.take();
                 }
-                for l in &typed {
+                for l in typed.iter().filter(|l| !numbered || l.starts_with("20 ")) {
                     s.enter(l);
                 }
                 s.take();
